@@ -42,7 +42,10 @@ type fakeMaster struct {
 	mu     sync.Mutex
 	conns  []*masterConn
 	script func(connIdx int, req dumpReq) []action
-	wg     sync.WaitGroup
+	// queryReply decides the answer to a COM_QUERY: "" = OK, "rejected" = ERR packet 1317, "lost" = the master
+	// closes the connection without answering (nil: always OK)
+	queryReply func(connIdx int, sql string) string
+	wg         sync.WaitGroup
 }
 
 func newFakeMaster(script func(connIdx int, req dumpReq) []action) (*fakeMaster, error) {
@@ -177,7 +180,22 @@ func (m *fakeMaster) serve(c net.Conn, mc *masterConn, idx int) {
 			m.mu.Lock()
 			mc.queries = append(mc.queries, string(p[1:]))
 			mc.order = append(mc.order, "query")
+			qr := m.queryReply
 			m.mu.Unlock()
+			reply := ""
+			if qr != nil {
+				reply = qr(idx, string(p[1:]))
+			}
+			switch reply {
+			case "rejected":
+				ep := append([]byte{0xff, 0x25, 0x05, '#', '7', '0', '1', '0', '0'}, []byte("Query execution was interrupted")...)
+				if err := writePacket(c, 1, ep); err != nil {
+					return
+				}
+				continue
+			case "lost":
+				return
+			}
 			if err := writePacket(c, 1, okPacket); err != nil {
 				return
 			}
